@@ -352,11 +352,15 @@ class APCI(ABC):
             if service == APCIService.DEVICE_DESCRIPTOR_RESPONSE.value:
                 return DeviceDescriptorResponse.from_knx(raw)
             if service == APCIService.RESTART.value:
-                if apci == APCIService.RESTART_MASTER_RESET.value:
+                # 1110 r 0000 t - the 4 reserved bits are ignored, the response (r)
+                # and restart type (t) bits select the service
+                restart = apci & 0x03E1
+                if restart == APCIService.RESTART_MASTER_RESET.value:
                     return RestartMasterReset.from_knx(raw)
-                if apci == APCIService.RESTART_MASTER_RESET_RESPONSE.value:
+                if restart == APCIService.RESTART_MASTER_RESET_RESPONSE.value:
                     return RestartMasterResetResponse.from_knx(raw)
-                return Restart.from_knx(raw)
+                if restart == APCIService.RESTART.value:
+                    return Restart.from_knx(raw)
             if service == APCIService.ESCAPE.value:
                 if apci == APCIExtendedService.FILTER_TABLE_OPEN.value:
                     return FilterTableOpen.from_knx(raw)
